@@ -57,9 +57,7 @@ WVALS = {'unit': [1.0] * 12, 'varied': [0.5, 2.0, 1.0, 0.25, 4.0, 1.5, 0.5, 2.0,
 def ref_basis_exact(name, xs, m):
     """m x n list of Fractions: textbook three-term recurrences evaluated in exact rational arithmetic."""
     rows = []
-    name = name.lstrip('f') if name.startswith('f') and name != 'fpoly' else name
-    if name == 'fpoly':
-        name = 'poly'
+    name = {'flegendre': 'legendre', 'fchebyshev': 'chebyshev', 'fpoly': 'poly', 'fchebyshev_split': 'chebyshev_split'}.get(name, name)
     for x in xs:
         x = Fraction(x)
         if name == 'poly':
@@ -453,7 +451,7 @@ def tasks(tier):
                 t.append({'f': 'trace', 'func': func, 'nc': nc, 'jk': jk, 'T': T})
     for func in TRACE_FUNCS:
         t.append({'f': 'tsfits', 'func': func, 'T': T})
-    # shard 0 must be small: basis flegendre m=1 is
+    # shard 0 (determinism probe) is basis/flegendre/m=1: small
     return t
 
 
